@@ -35,7 +35,13 @@ def wrapper_type(ty, cls=None, enums=()):
         return "%s *" % norm_ty(m.group(1))
     if ty in enums and cls:
         return "%s::%s" % (cls, ty)
+    m = re.match(r"^Kind(\d+)$", ty)
+    if m and wrapper_type.classes:       # the member enum of another (base) class, named in an overrider
+        return "%s::%s" % (wrapper_type.classes[int(m.group(1))], ty)
     return norm_ty(ty)
+
+
+wrapper_type.classes = []
 
 
 def parse_dump(text):
@@ -228,6 +234,7 @@ def run(ck):
     try:
         for r in range(10 if quick else 300):
             h = hdrgen.gen_header(rng, n_classes=rng.randrange(2, 5), sections=("__published", "public"), allow_cstr=False)      # (the -c back-end makes no wrapper for char const * without -string)
+            wrapper_type.classes = [c.name for c in h.classes]
             extra, scen = add_scenarios(rng, h)
             text = h.text().replace("#endif\n", extra + "#endif\n")
             (wd / "g.h").write_text(text)
